@@ -71,8 +71,12 @@ def deep_specs(tier):
 
 def wide_specs(tier):
     """sibling lists of 18-30 children and long top-level chains; validated with TraceLight.cfg"""
-    n = 2 if tier == "quick" else 6
-    return [{"mix": "wide", "seed": SEED * 10 + k, "events": 40 if tier == "quick" else 150, "cfg": "TraceLight"} for k in range(n)]
+    if tier == "quick":
+        return [{"mix": "wide", "seed": SEED * 10 + k, "events": 40, "cfg": "TraceLight"} for k in range(2)]
+    # thorough: also sibling lists beyond 64, 128 and 256 entries (limits hidden in counters / small integer types)
+    return ([{"mix": "wide", "seed": SEED * 10 + k, "events": 150, "cfg": "TraceLight"} for k in range(6)]
+            + [{"mix": "wide", "seed": SEED * 10 + 6 + k, "events": 60, "cfg": "TraceLight", "extra": ["--width", str(w)]}
+               for k, w in enumerate([66, 130, 260])])
 
 
 def boundary_specs(tier):
@@ -203,7 +207,7 @@ def check_property(prop, tier):
             for i, sp in enumerate(specs):
                 sp["extra"] = sp.get("extra", []) + (["--payload", "zst"] if i % 5 == 3 else ["--payload", "large"] if i % 5 == 4 else ["--tracked-payload"])
         r = run_traces(b, specs, prop)
-        if prop in ("C06", "C07"):
+        if prop in ("C06", "C07", "C11"):
             # the end of the generation counter again without debug assertions (a debug_assert can hide a reissue behind a panic)
             r2 = run_traces(build_harness("release"), boundary_specs(tier) + trace_specs(prop, tier, n_quick=2, n_thorough=4), prop + "-release")
             add_traces(v, r2, "generation-counter boundary and recycle-heavy histories on a release build")
@@ -341,6 +345,29 @@ def check_c17(v, tier):
     rt = run_traces(build_harness("debug", features=["std", "macros", "par_iter", "deser"], threads=True), [dict(x) for x in tspecs], "C17-validate")
     add_traces(v, rt, "the histories compared across feature sets, validated against IndexTree.tla for the full-featured build")
     v.cov["parts"].append({"part": "histories", "what": "sha256 of recorded histories per feature set (must be identical)", "hashes": {k: [h[1][:16] for h in hs.values()] for k, hs in hashes.items()}})
+    # pretty-printed text: every rendering of GenPrint_s4 (and renderings of payloads outside the domain of C14: ending in a
+    # newline, empty, ending in a blank line - digested only) must be byte-identical in every build
+    ppath, pmeta = ensure_bundles("GenPrint_s4")
+    pdig = {}
+    for fs_ in sets:
+        name = "+".join(fs_) or "no_std+alloc"
+        b = build_harness("debug", features=fs_, threads=("par_iter" in fs_))
+        out = os.path.join(vlib.RUN, "print-C17-%s.json" % name.replace("+", "_"))
+        rc, o = sh(["bash", "-c", "pigz -dc %s | %s print --digest-odd --out %s; exit ${PIPESTATUS[1]}" % (ppath, b, out)], timeout=3600)
+        if rc != 0:
+            raise ToolError("print harness failed: " + o[-2000:])
+        r = json.load(open(out))
+        pdig[name] = r["digest"]
+        v.cov["evaluations"] += r["renderings"] + r["renderings_outside_c14_digested"]
+        for f in r["findings"]:
+            f["detail"] = "[features: %s] %s" % (name, f["detail"])
+            if fs_ != ["std", "macros", "par_iter", "deser"] and fs_ != ["std", "macros"]:
+                f["orig_prop"] = f["prop"]
+        v.add_findings(r["findings"], "print:" + name)
+    v.cov["parts"].append({"part": "print-digests", "what": "digest of every debug_pretty_print text (4 modes, every start node, 6 line-count assignments, plus payload renderings outside the domain of C14) per feature set; must be identical",
+                           "bundles": "GenPrint_s4", "digests": pdig})
+    if len(set(pdig.values())) != 1:
+        v.add_findings([{"prop": "C17", "kind": "feature-sets-disagree", "detail": "pretty-printed text differs between feature sets: %s" % json.dumps(pdig), "case": {"digests": pdig}}], "print-digests")
     ds = set(digests.values())
     v.cov["parts"].append({"part": "digests", "what": "digest of all results / links / iterator outputs per feature set; must be identical", "digests": digests})
     if len(ds) != 1:
